@@ -98,29 +98,6 @@ theorem EnvRen.pushView {ρc ρv : Ren} {Γ Γ' : Env} (h : EnvRen ρc ρv Γ Γ
 
 /-! ### the scope skeleton: every binder is fresh where it is bound -/
 
-mutual
-/-- tracks only the names in scope; returns the scope after the statement -/
-def scopeS (sc : List Sym) : Stmt → Option (List Sym)
-  | .assign _ _ _ => some sc
-  | .reduce _ _ _ => some sc
-  | .writecfg _ _ _ _ => some sc
-  | .pass => some sc
-  | .ite _ t e => if (scopeL sc t).isSome && (scopeL sc e).isSome then some sc else none
-  | .loop i _ _ b _ => if !sc.contains i && (scopeL (i :: sc) b).isSome then some sc else none
-  | .alloc x _ => if !sc.contains x then some (x :: sc) else none
-  | .free _ => some sc
-  | .call g _ => if scopeP g then some sc else none
-  | .window x _ => if !sc.contains x then some (x :: sc) else none
-def scopeL (sc : List Sym) : List Stmt → Option (List Sym)
-  | [] => some sc
-  | s :: r => match scopeS sc s with
-      | some sc' => scopeL sc' r
-      | none => none
-/-- a callee body is a scope of its own that starts with the formals -/
-def scopeP : Proc → Bool
-  | .mk _ args _ body => (scopeL ((formalsEnv args).map Prod.fst) body).isSome
-end
-
 theorem lookup_none_of_contains {Γ : Env} {x : Sym}
     (h : (!(Γ.map Prod.fst).contains x) = true) : lookup x Γ = none := by
   apply lookup_none_of_not_mem
